@@ -189,7 +189,9 @@ Definition dest_resolves (authored : option N) (w : wdest) : bool :=
   | _, _ => false
   end.
 
-(** the recorded deviation: the authored 0-based page number written as a bare integer *)
+(** the PINNED (pre-fix) deviation, kept as a diagnostic only: the authored 0-based page number
+    written as a bare integer.  Known finding C28-dest-bare-page-number is fixed by
+    fix_dest_page_reference, so it no longer excuses anything: every unresolved destination is bit 2. *)
 Definition dest_is_bare_page_number (authored : option N) (w : wdest) : bool :=
   match authored, w with
   | Some p, WInt n => (n =? Z.of_N p)%Z
@@ -200,8 +202,47 @@ Definition dest_code (c : list (N * option N * wdest)) : N :=
   let bad := filter (fun '(_, a, w) => negb (dest_resolves a w)) c in
   match bad with
   | [] => 0
-  | _ => 2 + (if forallb (fun '(_, a, w) => dest_is_bare_page_number a w) bad then 4 else 0)
+  | _ => 2
   end.
+
+(** * the writer's translation (fix_dest_page_reference, [PdfWriter::resolve_destination_page]).
+    [Destination::to_array] serialises [PageDestination::PageNumber n] as [Integer n] and
+    [PageRef id] as [Reference id]; when the outline /Dest arrays and the leaves of the /Dests name
+    tree are emitted, a leading [Integer n] with [0 <= n < page_ids.len()] is replaced by
+    [Reference page_ids[n]]; anything else is left as authored. *)
+Inductive wobj := OInt (n : Z) | ORef (id : N) | OOther.
+
+Definition resolve_destination_page (page_ids : list N) (o : wobj) : wobj :=
+  match o with
+  | OInt n =>
+      if (n <? 0)%Z then OInt n                                   (* usize::try_from(n) fails *)
+      else match nth_error page_ids (Z.to_nat n) with             (* self.page_ids.get(index) *)
+           | Some id => ORef id
+           | None => OInt n
+           end
+  | _ => o
+  end.
+
+Fixpoint index_of (id : N) (l : list N) : option N :=
+  match l with
+  | [] => None
+  | x :: r => if x =? id then Some 0 else option_map N.succ (index_of id r)
+  end.
+
+(** how the written first element is read back (harness: position of the referenced object
+    among the page objects of the re-opened file) *)
+Definition read_target (page_ids : list N) (o : wobj) : wdest :=
+  match o with
+  | OInt n => WInt n
+  | ORef id => WRef (index_of id page_ids)
+  | OOther => WOther
+  end.
+
+Definition written_page_number (page_ids : list N) (p : N) : wdest :=
+  read_target page_ids (resolve_destination_page page_ids (OInt (Z.of_N p))).
+(** the pre-fix writer: no translation *)
+Definition written_page_number_pinned (page_ids : list N) (p : N) : wdest :=
+  read_target page_ids (OInt (Z.of_N p)).
 
 (** * named destinations: every authored name resolves to the authored page, in EVERY written copy
     of the document (a document may be serialized more than once) *)
@@ -211,7 +252,8 @@ Fixpoint assocw (n : bytes) (l : list (bytes * wdest)) : option wdest :=
   | (k, w) :: r => if bytes_eqb k n then Some w else assocw n r
   end.
 
-(** 0 resolves; 1 present but the recorded bare-page-number deviation; 2 anything else (missing, wrong page) *)
+(** 0 resolves; 1 present but the pinned bare-page-number deviation (diagnostic; a violation since the fix);
+    2 anything else (missing, wrong page) *)
 Definition name_status (found : list (bytes * wdest)) (a : bytes * N) : N :=
   match assocw (fst a) found with
   | Some w => if dest_resolves (Some (snd a)) w then 0
@@ -223,5 +265,5 @@ Definition names_code (c : list (bytes * N) * list (list (bytes * wdest))) : N :
   let '(auth, copies) := c in
   let sts := flat_map (fun found => List.map (name_status found) auth) copies in
   if existsb (N.eqb 2) sts then 2
-  else if existsb (N.eqb 1) sts then 6
+  else if existsb (N.eqb 1) sts then 2
   else 0.
